@@ -2,6 +2,8 @@
    line: <id> <sheet> ; <node>
      sheet := S <nOwn> <tester>* <nImports> <sheet>*      tester := a+ | a- | n<uri>+ | q<uri>.<local>-   (+ strip, - preserve)
      node  := E<uri>.<local>:<nkids> <node>* | T<hex>.<hex>... | C | P
+   line: <id> N <depth.from.count.stripped>*   (current node first, then its predecessors in reverse document order)
+   out : <id> <number_any of the walk> <number_any of the physically stripped walk>
    out : <id> D=<0|1 per whitespace-only text node, 1 = stripped> SV=<hex code points joined by .> NN=<n> NT=<n> KC=<n,n,...> L=<tester list after postConstruction> *)
 let tester_of (t : string) : tester =
   let n = String.length t in
@@ -68,6 +70,12 @@ let () =
   let ic = if Array.length Sys.argv > 1 then open_in Sys.argv.(1) else stdin in
   iter_lines ic (fun line ->
     match split_ws line with
+    | id :: "N" :: items ->
+        (* xsl:number level="any": the current node and its predecessors, each depth.from.count.stripped; both walks *)
+        let w = List.map (fun it -> match String.split_on_char '.' it with
+          | [d; f; c; s] -> { w_depth = nat_of_int (int_of_string d); w_from = (f = "1"); w_count = (c = "1"); w_stripped = (s = "1") }
+          | _ -> failwith "bad walk item") items in
+        Printf.printf "%s %d %d\n" id (int_of_nat (number_any w)) (int_of_nat (number_any (walk_strip w)))
     | id :: rest ->
         (try
           let (s, r) = parse_sheet rest in
